@@ -190,3 +190,35 @@ def extra(ctx):
 def ishex(v):
     v = v[1:] if v.startswith('-') else v
     return bool(v) and all(ch in '0123456789abcdef' for ch in v)
+
+
+def search(ctx, failed):
+    """Directed search when an obligation of Properties_C19.v no longer checks.  The parameter table of gmp_randinit_lc_2exp_size:
+    for every row that misses the full-period conditions (c odd, a = 5 mod 8) generators of the sizes that select the row are
+    seeded with 0, 1 and multiples of 2^m and the per-bit frequencies of their output are judged by the model's certificate."""
+    names = [o['name'] for o in failed]
+    if not any('lc_schemes' in n for n in names):
+        return None
+    sys.path.insert(0, os.path.join(os.path.dirname(os.path.dirname(os.path.abspath(__file__))), 'translator'))
+    import gen_rand
+    try:
+        rows = gen_rand.parse_lc_schemes()
+    except Exception:
+        return None
+    bad = [(m, a, c) for (m, a, c) in rows if c % 2 == 0 or a % 8 != 5]
+    prev = {}
+    ms = sorted(m for m, a, c in rows)
+    for m, a, c in bad:
+        lo = max([x for x in ms if x < m] + [0]) // 2 + 1
+        for size in sorted(set([lo, m // 2, (lo + m // 2) // 2])):
+            for seed in (0, 1 << (m + 104), 1, 12345):
+                ln = 'rand_bias 2 %x 0 0 %s 1 %x %x' % (size, hx(seed), min(size, 64), 4000)
+                o = vlib.run_robust(vlib.impl_cmd(ctx.impl), [ln], timeout=300, died='CRASH')[0]
+                t = o.split()
+                if not t or any(not ishex(v) for v in t):
+                    continue
+                mres = vlib.run_robust(vlib.model_cmd(), ['biascheck ' + ' '.join(t)], timeout=300, died='MODEL-DIED')[0]
+                if mres.strip() != '1' and not mres.startswith('MODEL-DIED'):
+                    return {'cases': [ln], 'implementation_output': o[:600], 'expected': 'every bit position set in roughly half of the 4000 draws',
+                            'note': 'row m2exp = %d of the lc_2exp_size table has a = %d mod 8, c = %d; generator of size %d seeded with %s' % (m, a % 8, c, size, hx(seed))}
+    return None
